@@ -80,7 +80,9 @@ Fixpoint normal (allow_pe : bool) (s : sel) {struct s} : bool :=
       end
   | SCombined a _ b =>
       (* left-nested chain of compounds (parser.go:870) *)
-      normal allow_pe a && match b with SCombined _ _ _ => false | _ => normal allow_pe b end
+      (* ... whose pseudo-element, if any, is on the last compound (parser.go:866) *)
+      normal allow_pe a && match b with SCombined _ _ _ => false | _ => normal allow_pe b end &&
+      match pseudo_element a with [] => true | _ => false end
   end.
 Definition normal_group (g : list sel) : bool :=
   match g with [] => false | _ => forallb (normal true) g end.
@@ -138,7 +140,7 @@ Definition complexes : list sel :=
   flat_map (fun a => flat_map (fun c => map (SCombined a c) few_compounds) combs) few_compounds ++
   flat_map (fun c1 => flat_map (fun c2 =>
      [SCombined (SCombined (STag [97]) c1 (SClass [49;97])) c2 (SCompound [] [98;101;102;111;114;101]);
-      SCombined (SCombined (SCompound [STag [97]] [98;101;102;111;114;101]) c1 (SCompound [] [])) c2 (SId [97])]) combs) combs.
+      SCombined (SCombined (STag [97]) c1 (SCompound [] [])) c2 (SCompound [SId [97]] [98;101;102;111;114;101])]) combs) combs.
 Definition rels : list sel :=
   flat_map (fun name =>
      map (fun x => SRel name [x]) (few_compounds ++ firstn 12%nat complexes) ++
